@@ -81,14 +81,19 @@ fn parse_chunk_meta(mut input: &[u8]) -> nom::IResult<&[u8], ChunkMeta<'_>> {
     use crate::utils::parser::consume;
 
     use nom::bytes::complete::{tag, take, take_till1};
-    use nom::combinator::{all_consuming, map_res};
-    use nom::number::complete::hex_u32;
+    use nom::combinator::all_consuming;
     use nom::sequence::delimited;
 
     let s = &mut input;
 
+    // the whole field is the size: hex digits only, any number of leading zeros
+    // (`hex_u32` reads at most 8 digits and leaves the rest, which went unnoticed)
     let size = consume(s, take_till1(|c| c == b';'))?;
-    let (_, size) = map_res(hex_u32, TryInto::try_into)(size)?;
+    let size: usize = std::str::from_utf8(size)
+        .ok()
+        .filter(|t| t.bytes().all(|b| b.is_ascii_hexdigit()))
+        .and_then(|t| usize::from_str_radix(t, 16).ok())
+        .ok_or_else(|| nom::Err::Error(nom::error::Error::new(size, nom::error::ErrorKind::HexDigit)))?;
 
     let signature = consume(s, all_consuming(delimited(tag(b";chunk-signature="), take(64_usize), tag(b"\r\n"))))?;
 
